@@ -308,13 +308,14 @@ def match_known(known, sig, root_causes=None, allow_class=False):
 def run_property(prop, tier="quick", seed=0, only=None, extra=None):
     """Returns exit code. Writes evidence/<prop>.json."""
     t0 = time.time()
+    os.environ["PYVC_TIER"] = tier
     sys.path.insert(0, str(VERIF))
     importlib.import_module(f"contracts.{prop}")
     contracts = [c for c in api.REGISTRY.get(prop, []) if only is None or c.name in only]
     timeout_ms = 8000 if tier == "quick" else 60000
     tasks = []
     for c in contracts:
-        if c.tier != "P":
+        if c.tier not in ("P", "BS"):
             continue
         D = getattr(c, "shard_bits", 0)
         for k in range(2 ** D):
@@ -345,6 +346,7 @@ def run_property(prop, tier="quick", seed=0, only=None, extra=None):
     fn_hashes = {}
     solver_ms = {}
     by_name = {}
+    bs_counts = {}
     lemma_viol = []
     floor_names, path_counts, had_error = {}, {}, {}
     for r in results:
@@ -358,12 +360,18 @@ def run_property(prop, tier="quick", seed=0, only=None, extra=None):
         c = next(c for c in contracts if c.name == r["contract"])
         names = floor_names.setdefault(r["contract"], set())
         for ob in r["obligations"]:
-            n_ob += 1
             full = f"{prop}.{r['contract']}.{ob['name']}"
             names.add(ob["name"])
-            by_name.setdefault(full, []).append(ob["status"])
+            if c.tier == "BS":
+                # bounded-symbolic contracts: sizes bounded, contents symbolic -- reported separately, never counted as proved
+                bs = bs_counts.setdefault(c.name, {"obligations": 0, "discharged": 0, "bound": c.note})
+                bs["obligations"] += 1
+                bs["discharged"] += ob["status"] == "discharged"
+            else:
+                n_ob += 1
+                by_name.setdefault(full, []).append(ob["status"])
             if ob["status"] == "discharged":
-                n_dis += 1
+                n_dis += c.tier != "BS"
                 if len(samples) < 6 and (len(samples) < 2 or ob["name"] not in {s["obligation"].split(".")[-1] for s in samples}):
                     samples.append({"obligation": full, "path": ob["path"], "solver": ob["solver"], "ms": ob["ms"], "assumptions": ob["n_assumptions"]})
             elif ob["status"] == "sat":
@@ -373,7 +381,7 @@ def run_property(prop, tier="quick", seed=0, only=None, extra=None):
         path_counts[r["contract"]] = path_counts.get(r["contract"], 0) + r["paths"]
         had_error[r["contract"]] = had_error.get(r["contract"], False) or bool(r["error"])
     for c in contracts:
-        if c.tier != "P" or had_error.get(c.name):
+        if c.tier not in ("P", "BS") or had_error.get(c.name):
             continue
         names = floor_names.get(c.name, set())
         if len(names) < c.floor:
@@ -511,7 +519,8 @@ def run_property(prop, tier="quick", seed=0, only=None, extra=None):
             "paths": sum(r["paths"] for r in results),
             "solver_time_ms": solver_ms,
             "back_ends": sorted(solver_ms),
-            "bounded": bounded,
+            "bounded": bounded + [{"check": "symbolic-contents/bounded-sizes contract " + k, "tool": "pyvc + z3 (sizes bounded, contents symbolic)",
+                                   "bound": v["bound"], "cases": v["obligations"], "discharged": v["discharged"]} for k, v in bs_counts.items()],
             "lemmas": lemma_recs,
             "undecided": [f"{a}: {b}" for a, b in undecided][:50],
             "known_findings_hit": sorted(seen_k),
